@@ -261,30 +261,41 @@ inductive Want where
   | accepted | refused
   deriving Repr, DecidableEq
 
-def readFrame (s : S) : S × Want :=
+/-- One frame handed to the client by a read. -/
+inductive Got where
+  | stop (w : Want)        -- nothing was received; the read returns `w`
+  | violated               -- a frame that violates the framing rules was received
+  | frame (f : InFrame)    -- a conforming frame was received (its effects on the handshake are applied)
+  deriving Repr, DecidableEq
+
+def receive (s : S) : S × Got :=
   match rx s with
-  | (.gated, s) => (s, .eos)
-  | (.over, s) => (s, .over)
-  | (.eof, s) => (s, .abnormal)
-  | (.ioerr, s) => (s, .transport .ioerr)
-  | (.nodata, s) => (s, .transport .nodata)
-  | (.frame f, s) => if isViolation f then (violate s, .violation []) else (recv s f, .deliverFrame f)
+  | (.gated, s) => (s, .stop .eos)
+  | (.over, s) => (s, .stop .over)
+  | (.eof, s) => (s, .stop .abnormal)
+  | (.ioerr, s) => (s, .stop (.transport .ioerr))
+  | (.nodata, s) => (s, .stop (.transport .nodata))
+  | (.frame f, s) => if isViolation f then (violate s, .violated) else (recv s f, .frame f)
+
+/-- Frame API: one frame. -/
+def readFrame (s : S) : S × Want :=
+  match receive s with
+  | (s, .stop w) => (s, w)
+  | (s, .violated) => (s, .violation [])
+  | (s, .frame f) => (s, .deliverFrame f)
 
 /-- Message assembly (RFC 6455 §5.4): control frames may be interleaved; a message is a FIN data frame with opcode
-text/binary, or a non-FIN one followed by continuation frames, the last with FIN. `closedNow` = the client reports
-`closedByUs` after the call (rejecting a message that is too big may start the closing handshake). -/
+text/binary, or a non-FIN one followed by continuation frames, the last with FIN. `ty` = type of the message in
+progress, `acc` = payload assembled so far. `closedNow` = the client reports `closedByUs` after the call (rejecting a
+message that is too big may start the closing handshake). -/
 def readMsg (closedNow : Bool) (buf : Nat) : Nat → S → Option Nat → Bytes → S × Want
   | 0, s, _, _ => (s, .transport .other)
   | fuel + 1, s, ty, acc =>
-    match rx s with
-    | (.gated, s) => (s, .eos)
-    | (.over, s) => (s, .over)
-    | (.eof, s) => (s, .abnormal)
-    | (.ioerr, s) => (s, .transport .ioerr)
-    | (.nodata, s) => (s, .transport .nodata)
-    | (.frame f, s) =>
-      if isViolation f then (violate s, .violation acc)
-      else if controlOp f.op then readMsg closedNow buf fuel (recv s f) ty acc
+    match receive s with
+    | (s, .stop w) => (s, w)
+    | (s, .violated) => (s, .violation acc)
+    | (s, .frame f) =>
+      if controlOp f.op then readMsg closedNow buf fuel s ty acc
       else
         let data := acc ++ f.payload
         if data.length > buf || data.length > s.max then
